@@ -15,6 +15,8 @@
 #include <sstream>
 #include <functional>
 #include <algorithm>
+#include <unistd.h>
+#include <csignal>
 
 namespace vh {
 
@@ -108,6 +110,8 @@ struct Mode {
 
 extern "C" int __lsan_do_recoverable_leak_check() __attribute__((weak));
 
+inline void on_case_alarm(int) { static const char m[] = "\nCASE-TIMEOUT\n"; ssize_t w = write(1, m, sizeof m - 1); (void)w; _exit(93); }
+
 inline int harness_main(int argc, char** argv, const std::vector<Mode>& modes) {
     // usage: h <mode> count <tier> | h <mode> run <seed> <first> <n> <tier>
     if (argc < 4) { fprintf(stderr, "usage: %s <mode> count <tier> | <mode> run <seed> <first> <n> <tier>\n", argv[0]); return 2; }
@@ -127,13 +131,18 @@ inline int harness_main(int argc, char** argv, const std::vector<Mode>& modes) {
     const long n = atol(argv[5]);
     const bool th = std::string(argv[6]) == "thorough";
     setvbuf(stdout, nullptr, _IOLBF, 0);
+    // per-case watchdog (generous): a case that does not finish is re-run once by the driver before it is judged
+    const unsigned caseTimeout = getenv("VH_CASE_TIMEOUT") ? unsigned(atoi(getenv("VH_CASE_TIMEOUT"))) : (th ? 1200u : 240u);
+    signal(SIGALRM, on_case_alarm);
     for (long k = first; k < first + n; ++k) {
         printf("BEGIN %ld\n", k);
         fflush(stdout);
+        alarm(caseTimeout);
         Result r;
         m->run(k, seed, th, r);
         if (&__lsan_do_recoverable_leak_check && !getenv("VH_NO_LEAK_CHECK") && __lsan_do_recoverable_leak_check())
             r.fail("lsan:leak", "LeakSanitizer reported a leak after this case (see stderr)");
+        alarm(0);
         Json j;
         j.i("k", k).s("sig", r.sig).b("nontrivial", r.nontrivial);
         if (r.skipped) j.s("verdict", "skip").s("reason", r.skipReason);
